@@ -18,12 +18,15 @@
       (`C19_g3_consistent_network_reproduced`), one step from displaced coordinates (`C19_g3_one_step_reproduced`);
     * buffer sizing: `dm_floats` (`C19_dm_floats_adequate`, `C19_dm_floats_observation`).
   Proofs: `Lemmas/G3DumpLemmas.lean`, `Lemmas/G3DumpFloats.lean`.
-  Not proved: the `BlockDiagonal(blocks, nonzeroes)` sizing (`bdAnnounced = bdWritten`, executed and compared by
-  `drv_g3` on every network); `Env.InputOK (dumpOf …)` is a hypothesis (its `RowsOK` part needs "the points of an
-  observation are distinct"); the non-linear types in the one-step theorem stay under the general `hlin`.
+  Round 10: `C19_block_diagonal_adequate`; `Env.InputOK (dumpOf …)` derived from the decidable input predicate
+  `DistinctRoles` (`C19_dump_input_ok`); distance and zenith angle in the one-step theorem by first-order exactness
+  (`C19_first_order_network_is_linear`).  Still open: the horizontal angle in the one-step theorem; a joint ℝ witness
+  of the composite theorems (no C01 witness has the shape of a `dumpOf`, see notes/reports/C19.md round 10).
 -/
 import Gama.Lemmas.G3DumpLemmas
 import Gama.Lemmas.G3DumpFloats
+import Gama.Lemmas.G3DumpInput
+import Gama.Lemmas.G3FirstOrder
 import Gama.Props.C19
 namespace Gama.Props.C19
 open Gama Gama.Neu Gama.G3Book Gama.G3Lin Gama.G3Net Gama.G3Dump Gama.Ls Gama.LS Gama.Ls.AdjM
@@ -195,7 +198,97 @@ theorem C19_dm_floats_adequate {K : Type} [Trig K] (net : Net ι K) (nobs : List
     ((∀ no ∈ nobs, ∀ f t, no.obs ≠ .azimuth f t) → floatsWritten (netEqs net nobs) = (bookOf net nobs).floats) :=
   ⟨book_floats_le net nobs, book_floats net nobs⟩
 
+/-- **the `BlockDiagonal` is allocated for exactly what `add_block` receives** (round 10): `(blocks, nonzeroes)` summed
+    from the members `act_nonz` cached by `Cluster::update()` = the number of `add_block` calls and the number of doubles
+    they `memcpy` (`dim·(w+1) − w(w+1)/2` of `activeCov()`'s dimension and clipped band) — for every cluster list, every
+    activity pattern (clusters without an active observation contribute to neither). -/
+theorem C19_block_diagonal_adequate (net : Net ι ℝ) (sd : ℝ) (cls : List (Cluster ι ℝ)) :
+    bdAnnounced net cls = bdWritten (covBlocks net sd cls) :=
+  bd_adequate net sd cls
+
+/-! ### round 10: the static hypothesis derived, the non-linear types -/
+
+/-- **`Env.InputOK (dumpOf …)` from ONE decidable predicate on the input** — no record names the same point twice
+    (`DistinctRoles`: `from ≠ to`, `from ≠ left ≠ right ≠ from`).  Then: every covariance block of the dump is a
+    well-formed `BlockDiagonal` block (`activeCov`'s invariant), the block dimensions add up to the number of project
+    equations (Σ `act_dim` = Σ `dimension()` of the active records), and every sparse row has distinct column indices
+    in `1..dm_cols` (`C19_only_free_indices` + `C19_update_index_is_book` + injectivity of `update_index` on the
+    adjusted parameters).  The first two hold unconditionally (`dump_blocksWF`, `dump_dims`). -/
+theorem C19_dump_input_ok (net : Net ι ℝ) (sd : ℝ) (cls : List (Cluster ι ℝ)) (hd : DistinctRoles cls) :
+    Env.InputOK (dumpOfR net sd cls) :=
+  dump_inputOK net sd cls hd
+
+/-- **`C19_g3_same_adjustment` with the visible hypothesis**: `DistinctRoles` replaces `Env.InputOK` -/
+theorem C19_g3_same_adjustment_distinct (net : Net ι ℝ) (sd : ℝ) (cls : List (Cluster ι ℝ)) (hd : DistinctRoles cls)
+    (P : Matrix (Fin (dumpOfR net sd cls).m) (Fin (dumpOfR net sd cls).m) ℝ)
+    (hP : (dumpOfR net sd cls).C * P = 1) {τ : ℝ} (hτ : GapThresholds τ) (hw : (Svd.wTol : ℝ) ≤ τ)
+    (h : RankGap (designOf (bookOf net (nobsOf cls)).idx.cols (netEqsR net (nobsOf cls))) P
+      (regSet (bookOf net (nobsOf cls)).idx.cols net.points (bookOf net (nobsOf cls))) τ)
+    (hsv : SingGap (designOf (bookOf net (nobsOf cls)).idx.cols (netEqsR net (nobsOf cls))) P τ)
+    (Ad : DMat ℝ) (bd : Array ℝ) (hh : homogenise (dumpOfR net sd cls) = .ok (Ad, bd))
+    (alg₁ alg₂ : Alg) (a₁ a₂ : Answer ℝ)
+    (hs₁ : adjSolve alg₁ (dumpOfR net sd cls) = .ok a₁) (hs₂ : adjSolve alg₂ (dumpOfR net sd cls) = .ok a₂) :
+    toVec (bookOf net (nobsOf cls)).idx.cols a₁.x = toVec (bookOf net (nobsOf cls)).idx.cols a₂.x ∧
+    toVec (netEqsR net (nobsOf cls)).length a₁.r = toVec (netEqsR net (nobsOf cls)).length a₂.r ∧
+    a₁.rtr = a₂.rtr :=
+  C19_g3_same_adjustment net sd cls (dump_inputOK net sd cls hd) P hP hτ hw h hsv Ad bd hh alg₁ alg₂ a₁ a₂ hs₁ hs₂
+
+/-- **`hlin` derived for networks with distances and zenith angles** (item 4 of round 9).  Every active record is a
+    vector / xyz / height / height difference generated from the displaced coordinates (`GeneratedObs`), or a DISTANCE /
+    ZENITH ANGLE whose observed value is first-order exact — observation function at the linearisation point plus its
+    directional derivative along the displacement, the derivative given by `HasDerivAt` of the geometric function (not
+    by the coded coefficients): `FirstOrderObs`.  Then every project equation is satisfied exactly by `ξ`.  The
+    derivative is identified with the regenerated row by `HasDerivAt.unique` against `C19_coeff_is_derivative_distance`
+    / `C19_coeff_is_derivative_zenith`. -/
+theorem C19_first_order_network_is_linear (net : Net ι ℝ) (nobs : List (NObs ι ℝ))
+    (ξ : Fin (bookOf net nobs).idx.cols → ℝ)
+    (hgen : ∀ no ∈ activeOf net nobs, FirstOrderObs net (bookOf net nobs) (vecAt ξ) no.obs no.o) :
+    ∀ p ∈ netEqsR net nobs, p.2 = @rowDot ℝ realScalar p.1 (vecAt ξ) :=
+  netEqs_firstOrder net nobs (vecAt ξ) (vecAt_zero ξ) hgen
+
+/-- **one step reproduces a network with distances and zenith angles, every algorithm, weights from the covariances**:
+    `C19_g3_one_step_reproduced` with `hlin` from `FirstOrderObs` and `Env.InputOK` from `DistinctRoles` -/
+theorem C19_g3_one_step_first_order_reproduced (net : Net ι ℝ) (sd : ℝ) (cls : List (Cluster ι ℝ)) (hd : DistinctRoles cls)
+    (P : Matrix (Fin (dumpOfR net sd cls).m) (Fin (dumpOfR net sd cls).m) ℝ)
+    (hP : (dumpOfR net sd cls).C * P = 1) {τ : ℝ} (hτ : GapThresholds τ) (hw : (Svd.wTol : ℝ) ≤ τ)
+    (h : RankGap (designOf (bookOf net (nobsOf cls)).idx.cols (netEqsR net (nobsOf cls))) P
+      (regSet (bookOf net (nobsOf cls)).idx.cols net.points (bookOf net (nobsOf cls))) τ)
+    (hsv : SingGap (designOf (bookOf net (nobsOf cls)).idx.cols (netEqsR net (nobsOf cls))) P τ)
+    (Ad : DMat ℝ) (bd : Array ℝ) (hh : homogenise (dumpOfR net sd cls) = .ok (Ad, bd))
+    (ξ : Fin (bookOf net (nobsOf cls)).idx.cols → ℝ)
+    (hgen : ∀ no ∈ activeOf net (nobsOf cls), FirstOrderObs net (bookOf net (nobsOf cls)) (vecAt ξ) no.obs no.o)
+    (hker : ∀ g, designOf (bookOf net (nobsOf cls)).idx.cols (netEqsR net (nobsOf cls)) *ᵥ g = 0 → g = 0)
+    (alg : Alg) (a : Answer ℝ) (hs : adjSolve alg (dumpOfR net sd cls) = .ok a) :
+    toVec (bookOf net (nobsOf cls)).idx.cols a.x = ξ ∧ toVec (netEqsR net (nobsOf cls)).length a.r = 0 ∧ a.rtr = 0 :=
+  C19_g3_one_step_reproduced net sd cls (dump_inputOK net sd cls hd) P hP hτ hw h hsv Ad bd hh ξ
+    (C19_first_order_network_is_linear net (nobsOf cls) ξ hgen) hker alg a hs
+
 /-! ### non-vacuity -/
+
+/-- `DistinctRoles` is decided on the input: the two-vector network has it, a vector from a point to itself does not -/
+example (c₁ c₂ : Cov.CovMat ℝ) (o₁ o₂ : GObs ℝ) :
+    DistinctRoles [⟨c₁, [(true, ⟨.vector 0 1, o₁⟩)]⟩, ⟨c₂, [(true, ⟨.vector 0 2, o₂⟩)]⟩] ∧
+    ¬ DistinctRoles [⟨c₁, [(true, ⟨.vector (1 : Nat) 1, o₁⟩)]⟩] := by
+  constructor
+  · intro no hno
+    simp [nobsOf, records] at hno
+    rcases hno with rfl | rfl <;> rfl
+  · intro h
+    have := h ⟨.vector 1 1, o₁⟩ (by simp [nobsOf, records])
+    simp [rolesDistinct] at this
+
+/-- `FirstOrderObs` for a distance is satisfiable for every displacement and every pair of distinct end points: the
+    observed value `dist₀ + (row · x)/1000` is first-order exact (`distRow_hasDerivAt` provides the derivative) -/
+example (net : Net ι ℝ) (b : Book ι) (x : Nat → ℝ) (f t : ι) (o : GObs ℝ)
+    (hne : ((ptsOfR net b.idx.ind (.distance f t) .to).X - (ptsOfR net b.idx.ind (.distance f t) .frm).X) ^ 2 +
+     ((ptsOfR net b.idx.ind (.distance f t) .to).Y - (ptsOfR net b.idx.ind (.distance f t) .frm).Y) ^ 2 +
+     ((ptsOfR net b.idx.ind (.distance f t) .to).Z - (ptsOfR net b.idx.ind (.distance f t) .frm).Z) ^ 2 ≠ 0)
+    (hobs : o.v1 = distanceFn (ptsOfR net b.idx.ind (.distance f t)) o +
+      @rowDot ℝ realScalar (distRow (toPt (ptsOfR net b.idx.ind (.distance f t) .frm))
+        (toPt (ptsOfR net b.idx.ind (.distance f t) .to))) x / 1000) :
+    FirstOrderObs net b x (.distance f t) o :=
+  firstOrder_distance_witness net b x f t o hne hobs
+
 
 /-- `exNet` (point 0 fixed, 1 free, 2 constrained; vectors 0→1, 0→2) as two clusters with 3×3 covariance matrices:
     `nobsOf` is the record list of the network theorems; the revisions reserve 3 + 3 = … `dm_floats = 18` and the two
